@@ -9,7 +9,7 @@ RULE = ("histories on one thread without scheduler reset: a first computation = 
         "every placement of <=k deviations from the fault menu (raise, failing/unset items, failing flush incl. "
         "BaseException, lazily computed futures, ErrorFuture, non-futures, NonAsyncContext, contexts whose "
         "pause/resume raise, synchronous re-entry nested to depth 3, try) under every flush schedule and, in a second "
-        "pass, with the runaway-recursion guard tripped (MAX_TASK_STACK_SIZE 2..6); followed by four canary "
+        "pass, with the runaway-recursion guard tripped (MAX_TASK_STACK_SIZE 2..6); followed by five canary "
         "computations. Oracle: get_active_task() at every step/probe/after nested calls, None afterwards; empty "
         "scheduler stack; no body of an earlier computation runs later; every canary observation equals the same "
         "history with scheduler.reset() inserted before it (differential). non-trivial = first computations that "
